@@ -64,6 +64,7 @@ type Frame struct {
 	done   bool
 
 	phiOverride []Value
+	armRet      int // >0: a merge arm of this frame may end by returning
 }
 
 // pathEnd is thrown (Go panic) to end the current path
@@ -582,7 +583,9 @@ func (w *Worker) run(fr *Frame, stop *ssa.BasicBlock) {
 						next = b.Succs[1]
 					}
 				} else {
-					if nb := w.tryMerge(fr, b, c, stop); nb != nil {
+					if nb, ret := w.tryMerge(fr, b, c, stop); ret {
+						return
+					} else if nb != nil {
 						next = nb
 					} else if w.branch(c) {
 						next = b.Succs[0]
@@ -606,6 +609,9 @@ func (w *Worker) run(fr *Frame, stop *ssa.BasicBlock) {
 				fr.done = true
 				if stop != nil {
 					w.abort("mergefail", "return inside merge arm")
+				}
+				if fr.armRet > 0 && len(fr.defers) > 0 {
+					w.abort("mergefail", "return with pending defers inside merge arm")
 				}
 				return
 			case *ssa.Panic:
